@@ -87,6 +87,10 @@ def make(rng, kind, d=2):
         if d == 2 and rng.random() < 0.35:
             parts.insert(0, make(rng, ["ThinPlateSplines", "PiecewiseAffine"][rng.integers(0, 2)], d))
         return mt.TransformChain([p[0] for p in parts]), (lambda: mt.TransformChain([p[1]() for p in parts]))
+    if kind.startswith("identity:"):
+        import menpo.transform as mt2
+        cls = getattr(mt2, kind.split(":")[1])
+        return cls.init_identity(d), (lambda: cls.init_identity(d))
     seed = int(rng.integers(0, 2 ** 31))
 
     def build():
